@@ -695,6 +695,29 @@ theorem inv_drainFut {H : Prop} {N : Nat} {F : Bool} (fuel : Nat) {s : State} (i
   · exact inv_dropNormal fuel (inv_resolve i .d (inv_setMoved true h))
   · exact h
 
+theorem inv_callBound {H : Prop} {N : Nat} {F : Bool} (fuel : Nat) {s : State} (i : Nat) (h : Inv H N F s) :
+    Inv H N F (callBound fuel s i) := by
+  unfold callBound
+  split
+  · exact h
+  · exact inv_dropNormal fuel (inv_settle i _ (inv_setFut i _ h))
+  · exact inv_dropNormal fuel (inv_clearTmp h)
+
+theorem inv_killBound {H : Prop} {N : Nat} {F : Bool} (fuel : Nat) {s : State} (i : Nat) (h : Inv H N F s) :
+    Inv H N F (killBound fuel s i) := by
+  unfold killBound
+  split
+  · exact h
+  · exact inv_dropNormal fuel (inv_settle i _ (inv_setFut i _ h))
+  · exact inv_setFut i _ h
+
+theorem inv_drainBnd {H : Prop} {N : Nat} {F : Bool} (fuel : Nat) {s : State} (i : Nat) (h : Inv H N F s) :
+    Inv H N F (drainBnd fuel s i) := by
+  unfold drainBnd
+  split
+  · exact inv_killBound fuel i (inv_setMoved true h)
+  · exact h
+
 theorem inv_drainCo {H : Prop} {N : Nat} {F : Bool} (fuel : Nat) {s : State} (j : Nat) (h : Inv H N F s) : Inv H N F (drainCo fuel s j) := by
   unfold drainCo
   split
@@ -719,8 +742,9 @@ theorem inv_foldl {H : Prop} {N : Nat} {F : Bool} (f : State → Nat → State) 
 theorem inv_drainRound {H : Prop} {N : Nat} {F : Bool} (fuel : Nat) {s : State} (h : Inv H N F s) : Inv H N F (drainRound fuel s) :=
   inv_foldl _ (inv_drainSp fuel) _
     (inv_foldl _ (inv_drainCo fuel) _
-      (inv_foldl _ (inv_drainFut fuel) _
-        (inv_foldl _ (inv_drainMx fuel) _ (inv_setMoved false h))))
+      (inv_foldl _ (inv_drainBnd fuel) _
+        (inv_foldl _ (inv_drainFut fuel) _
+          (inv_foldl _ (inv_drainMx fuel) _ (inv_setMoved false h)))))
 
 theorem inv_drain {H : Prop} {N : Nat} {F : Bool} (r fuel : Nat) : ∀ {s : State}, Inv H N F s → Inv H N F (drain r fuel s) := by
   induction r with
@@ -792,6 +816,9 @@ theorem inv_step {H : Prop} {N : Nat} {F : Bool} (fuel : Nat) {s : State} (op : 
   | sf k => exact up (inv_flushSp fuel k h')
   | sm k k2 => simp only [step]; split; exact up h'; exact up (inv_mergeTmpInto k (inv_loadSp k2 h'))
   | rm k i kd => simp only [step]; split; exact up (inv_mergeTmpInto k (inv_resolve i kd h')); exact up h'
+  | bd i sz => simp only [step]; split; exact up (inv_setFut _ _ h'); exact up h'
+  | bi i => exact up (inv_callBound fuel i h')
+  | bx i => exact up (inv_killBound fuel i h')
   | gen g heap n =>
     simp only [step]
     split
